@@ -4,7 +4,8 @@ Collections of normal / joint-normal distributions with SYMBOLIC entries are enu
 sequences); after every operation of the REAL RandomVariables API (join, unjoin, selection, subs, +) z3 decides, for all
 parameter values, that every variance, every covariance between variables that stay in one block, and the overall
 covariance matrix (block-diagonal composition) equal what the harness's own table of declared (co)variances says.
-The numeric linear-algebra clauses (nearest PSD, sd/corr conversions, UCP) are outside the claim.
+The sd/corr/precision conversion clause is decided by checks/C11_conv.py (real functions run on numpy object arrays of
+z3 terms).  Nearest PSD repair, parameters_sdcorr and UCP scaling remain outside the claim.
 """
 import itertools
 import json
@@ -319,6 +320,9 @@ def replay(path):
 
     def tup(x):
         return tuple(tup(i) for i in x) if isinstance(x, list) else x
+    if d['replay'].get('kind') == 'C11conv':
+        import C11_conv
+        return C11_conv.replay(d['replay'])
     res = run_case(tup(d['replay']['case']))
     bad = [(o, dd) for o, v, dd in res['results'] if v == 'violated']
     print(json.dumps(dict(case=str(res['case']), violated=bad), default=str, indent=1))
@@ -344,7 +348,10 @@ def main():
     counts = {}
     viol = []
     cut = None
+    import C11_conv
+    conv_stats = {}
     with mp.Pool(nproc, initializer=_init) as pool:
+        conv_async = pool.map_async(C11_conv.conv_task, C11_conv.task_list(thorough), chunksize=1)
         for res in pool.imap(run_case, cases, chunksize=8):
             done += 1
             if res['status'] != 'ok':
@@ -363,6 +370,11 @@ def main():
             if time.time() - t0 > budget:
                 cut = f'stopped by time budget after {done} of {len(cases)} cases'
                 break
+        try:
+            for cres in conv_async.get(timeout=900 if thorough else 400):
+                C11_conv.record(run, cres, conv_stats)
+        except mp.TimeoutError:
+            run.add('conv.*', 'inconclusive', 0, 'conversion obligations did not finish in time')
         pool.terminate()
     for (ob, verdict), c in sorted(counts.items()):
         if verdict == 'discharged':
@@ -381,14 +393,26 @@ def main():
         reported.add(ob)
         v = run.report_violation(ob, key, dict(kind='C11', case=case), json.dumps(detail, default=str)[:600])
         run.add(f'{ob} @ {case}', v, 0, detail)
-    run.functions = ['RandomVariables.join', 'unjoin', '__getitem__', 'subs', '__add__', 'covariance_matrix',
+    for k in ('unsat', 'sat_confirmed', 'sat_unreplayable', 'unknown'):
+        stats[k] += conv_stats.get(k, 0)
+    nq += conv_stats.get('queries', 0)
+    run.extra['conversion_paths_explored'] = conv_stats.get('paths', 0)
+    run.functions = ['internals.math.cov2corr', 'internals.math.corr2cov', 'modeling.calculate_se_from_cov',
+                     'calculate_se_from_prec', 'calculate_corr_from_cov', 'calculate_corr_from_prec',
+                     'calculate_cov_from_corrse', 'calculate_cov_from_prec', 'calculate_prec_from_cov',
+                     'calculate_prec_from_corrse', 'RandomVariables.join', 'unjoin', '__getitem__', 'subs', '__add__', 'covariance_matrix',
                      'get_covariance', 'to_dict/from_dict', 'JointNormalDistribution.create', 'NormalDistribution.create']
     run.bounds = dict(variables='<= 4 (thorough 5) in <= 3 blocks with symbolic entries, IIV/IOV/RUV levels',
                       op_sequences='all sequences of length <= 2 (thorough: + length 3 on <= 3 variables) over join '
                                    '(fill and named), unjoin, selection, subs, +',
-                      outside='nearest_positive_semidefinite, cov2corr/corr2cov, parameters_sdcorr, UCP scaling and '
-                              'every other numpy linear-algebra clause of the property (not claimed)')
-    run.assumptions = ['oracle = harness table of declared (co)variances keyed by variable name',
+                      conversions='cov2corr / corr2cov / calculate_*_from_* on symbolic matrices of size n <= 3 '
+                                  '(thorough: the inverse-free ones also n = 4), every branch path explored',
+                      outside='nearest_positive_semidefinite, parameters_sdcorr (symengine substitution), UCP scaling '
+                              '(cholesky, exp) and the numerics of np.linalg.inv (replaced by its contract A.X = X.A = I)')
+    run.assumptions = ['conversion clause: np.linalg.inv inside pharmpy.modeling.math is replaced by its contract (fresh X with '
+                       'A.X = I and X.A = I); numpy object-array semantics (elementwise operators, np.sqrt -> .sqrt(), '
+                       'matmul, mask assignment) are trusted; sqrt is exact (s >= 0, s*s = x); float rounding is outside',
+                       'oracle = harness table of declared (co)variances keyed by variable name',
                        'newly created covariances (fill value / new symbols) are unconstrained',
                        'z3 decides each entry equality for all parameter values']
     run.extra['explanation'] = 'algebra of random-effect collections vs declared covariance table'
